@@ -265,6 +265,19 @@ CLAIMS['C20'].update(
     technique=CLAIMS['C20']['technique'] + '; const-input rule (no mutable data member, no const-removing cast that is written through)',
     text=CLAIMS['C20']['text'] + ' No library record has a mutable data member and no cast removes const from a pointee except to read through it: an object received as a const input cannot carry state.')
 
+# ---- session 4, benign-refactor rounds and round 11
+CLAIMS['C09'].update(
+    technique=CLAIMS['C09']['technique'] + '; word-level symbolic execution of the identity branch of decode (path facts must force every padding byte and the stray flag bits to zero)',
+    text=CLAIMS['C09']['text'] + ' For the identity: on every accepting validating path with the infinity flag set, the path facts force data[i] == 0 for every i >= 1 and (data[0] & 0x3f) == 0, whatever loop form, helper or local the test is written with.')
+CLAIMS['C13'].update(
+    text=CLAIMS['C13']['text'] + ' The signer\'s fill loop is left only when every free slot of the key was visited or no attribute is left (exit condition of the per-segment argument).')
+CLAIMS['C03'].update(
+    text=CLAIMS['C03']['text'] + ' The portable Montgomery reduction is decided per path when it branches on data: the quotient words of the path, a round with u == 0 contributing its untouched low word, must satisfy 2^n V + Z == T + U p.')
+CLAIMS['C10'].update(
+    text=CLAIMS['C10']['text'] + ' The top-byte masks of the samplers and hash reductions equal 2^(bitlen mod 8) - 1 (value below 2p before the single conditional subtraction).')
+for _p in CLAIMS:
+    CLAIMS[_p]['note'] = (CLAIMS[_p].get('note') or '') + ' New file-local helpers, closures, named boolean / reference locals and predicate helpers are normalised away before the rules run (jpv/normalise.py, jpv/cfg.py); a routine restructured beyond that is declined (exit 2), not reported.'
+
 NA = {
 }
 
